@@ -48,8 +48,10 @@ def main():
     sh(["git", "-C", "/repo", "worktree", "remove", "--force", wt])
     rc, out, _ = sh([os.path.join(VERIF, "tools", "mkwt.sh"), name])
     assert rc == 0, out
-    res = {"dir": d, "worktree": wt}
-    env = dict(os.environ, PYTHONPATH=wt)
+    res = {"dir": d, "worktree": wt, "env": "PYTHONPATH=<worktree> TSDATE_ENABLE_NUMBA_CACHE=1"}
+    # numba on-disk cache (the repository's own switch): kernels are compiled once per worktree instead of
+    # once per pytest worker / demo process; it changes compile time only
+    env = dict(os.environ, PYTHONPATH=wt, TSDATE_ENABLE_NUMBA_CACHE="1")
     try:
         rc, out, t = sh([PY, os.path.join(d, "demo.py")], cwd=wt, env=env, timeout=900)
         res["demo_clean"] = {"exit": rc, "secs": round(t, 1), "tail": out[-400:]}
